@@ -188,6 +188,61 @@ theorem run_good : ∀ (cs : List Call) (s : S), Inv s → (run s cs).2 = cs.map
 /-- the state reached after a history -/
 def after (s : S) (cs : List Call) : S := (run s cs).1
 
+/-! ### a memo in front of the entry points -/
+
+/-- what the memo holds is the result of some call with that key -/
+def MemoOk {κ : Type} (key : Call → κ) (memo : Option (κ × Out)) : Prop :=
+  ∀ k o, memo = some (k, o) → ∃ c, key c = k ∧ o = pureOut c
+
+theorem memoOk_set {κ : Type} (key : Call → κ) (c : Call) : MemoOk key (some (key c, pureOut c)) := by
+  intro k o e
+  simp only [Option.some.injEq, Prod.mk.injEq] at e
+  exact ⟨c, e.1, e.2.symm⟩
+
+/-- if the key determines the result, a memoised call answers what the history-free function answers and keeps both invariants -/
+theorem memoStep_good {κ : Type} [DecidableEq κ] (key : Call → κ)
+    (hk : ∀ c c', key c = key c' → pureOut c = pureOut c') (s : S) (memo : Option (κ × Out))
+    (hs : Inv s) (hm : MemoOk key memo) (c : Call) :
+    (memoStep key (s, memo) c).2 = pureOut c ∧ Inv (memoStep key (s, memo) c).1.1 ∧ MemoOk key (memoStep key (s, memo) c).1.2 := by
+  obtain ⟨g1, g2, _⟩ := good s c hs
+  have g1' : (step s c).2.1 = pureOut c := g1
+  unfold memoStep
+  cases memo with
+  | none =>
+    dsimp only
+    rw [g1']
+    exact ⟨rfl, g2, memoOk_set key c⟩
+  | some p =>
+    obtain ⟨k, o⟩ := p
+    dsimp only
+    by_cases hkc : key c = k
+    · rw [if_pos hkc]
+      obtain ⟨c', hc', ho⟩ := hm k o rfl
+      exact ⟨by rw [ho]; exact (hk c c' (by rw [hkc, hc'])).symm, hs, hm⟩
+    · rw [if_neg hkc, g1']
+      exact ⟨rfl, g2, memoOk_set key c⟩
+
+theorem memoRun_good {κ : Type} [DecidableEq κ] (key : Call → κ)
+    (hk : ∀ c c', key c = key c' → pureOut c = pureOut c') (cs : List Call) :
+    ∀ (s : S) (memo : Option (κ × Out)), Inv s → MemoOk key memo → memoRun key (s, memo) cs = cs.map pureOut := by
+  induction cs with
+  | nil => intro _ _ _ _; rfl
+  | cons c cs ih =>
+    intro s memo hs hm
+    obtain ⟨h1, h2, h3⟩ := memoStep_good key hk s memo hs hm c
+    have e : memoStep key (s, memo) c = (((memoStep key (s, memo) c).1.1, (memoStep key (s, memo) c).1.2), (memoStep key (s, memo) c).2) := rfl
+    simp only [memoRun, List.map_cons, h1]
+    rw [e]
+    exact congrArg _ (ih _ _ h2 h3)
+
+/-- two calls the key identifies although their results differ: the second is answered with the result of the first -/
+theorem memoRun_collision {κ : Type} [DecidableEq κ] (key : Call → κ) (s : S) (hs : Inv s) (c c' : Call)
+    (hk : key c = key c') (hne : pureOut c ≠ pureOut c') :
+    memoRun key (s, none) [c, c'] ≠ [c, c'].map pureOut := by
+  have g1 : (step s c).2.1 = pureOut c := (good s c hs).1
+  simp only [memoRun, memoStep, hk, if_true, g1, List.map_cons, List.map_nil, ne_eq, List.cons.injEq, and_true, true_and]
+  exact hne
+
 theorem run_append (s : S) (a b : List Call) :
     (run s (a ++ b)).2 = (run s a).2 ++ (run (after s a) b).2 := by
   induction a generalizing s with
